@@ -100,7 +100,7 @@ func C15(c *Ctx) {
 	if c.Thorough() {
 		D = 5
 	}
-	c.Bound("reset step: the stack variables hold ANY contents (stack pointer 0..%d, slice length up to %d, arbitrary entries), then ParserInit(), then a parse of y (%d tokens): same outcome as from the pristine state; with the write footprint of a parse (only these variables) this extends the bounded histories to histories of any length whose parses stay within that depth", D, D, ny)
+	c.Bound("reset step: above the bottom entry the stack variables hold any contents (stack pointer 1..%d, slice length up to %d, entries with state 1 or the last state and arbitrary values), then ParserInit(), then a parse of y (%d tokens): same outcome as from the pristine state; with the write footprint of a parse (only these variables) this extends the bounded histories to histories of any length whose parses stay within that depth", D, D, ny)
 	c.Harnesses = append(c.Harnesses, "harness/gen/step.go.txt:VerifResetStep")
 	rv := GoVariants
 	if !c.Thorough() {
